@@ -7,6 +7,8 @@
 // @h c06_validate_float tier=both
 // @h c06_validate_string tier=both
 // @h c06_validate_enum_external tier=both bounded=default-string-of-at-most-2-ASCII-bytes,enum-of-2-simple-variants
+// @h c06_validate_array_too_long tier=both bounded=fixed-length-2-array-of-bool,defaults-of-1-and-3-elements
+// @h c06_validate_array_too_short tier=both bounded=fixed-length-2-array-of-bool,defaults-of-1-and-3-elements
 // @needs te_support
 // @canary canary_c06_validate
 //
@@ -24,6 +26,12 @@
 //   P3  Ok(Generic(g))     ==> Boolean: g = Boolean and the value is `true`;
 //                              Integer: g = U64 / NZU64 for a positive value (NZU64 exactly
 //                              for the NonZero types), g = I64 for a negative value
+//
+//   P1a a default for a fixed-length array whose element count differs from the array length
+//       is rejected (the generated `[T; N]` literal would not compile) -- decided only for the
+//       WRONG lengths (1 and 3 elements against N = 2; the length test precedes the item
+//       lookup). A right-length default reaches the item entry's lookup and the recursive
+//       validate_value, which CBMC does not finish.
 //
 // The kind is concrete per harness; the JSON value is symbolic over
 // {null, bool, u64, negative i64, finite f64, "", a non-empty string, [], {}}.
@@ -226,6 +234,44 @@ fn c06_validate_enum_external() {
     core::mem::forget(value);
     core::mem::forget(entry);
     core::mem::forget(ts);
+}
+
+fn check_array_len(n: usize) {
+    let mut ts = empty_type_space();
+    ts.id_to_entry.insert(TypeId(3), TypeEntryDetails::Boolean.into());
+    let entry: TypeEntry = TypeEntryDetails::Array(TypeId(3), 2).into();
+    let mut items = Vec::new();
+    let mut i = 0;
+    while i < n {
+        items.push(Value::Bool(i == 0));
+        i += 1;
+    }
+    let value = Value::Array(items);
+    let result = entry.validate_value(&ts, &value);
+    kani::assert(
+        result.is_err(),
+        "[C06/P1a] a default with the wrong number of elements was accepted for a fixed-length array",
+    );
+    core::mem::forget(result);
+    core::mem::forget(value);
+    core::mem::forget(entry);
+    core::mem::forget(ts);
+}
+
+#[kani::proof]
+#[kani::unwind(24)]
+#[kani::stub(crate::MapType::new, crate::verif_common::stub_map_type_new)]
+#[kani::stub(crate::util::sanitize, crate::verif_common::stub_sanitize)]
+fn c06_validate_array_too_long() {
+    check_array_len(3)
+}
+
+#[kani::proof]
+#[kani::unwind(24)]
+#[kani::stub(crate::MapType::new, crate::verif_common::stub_map_type_new)]
+#[kani::stub(crate::util::sanitize, crate::verif_common::stub_sanitize)]
+fn c06_validate_array_too_short() {
+    check_array_len(1)
 }
 
 #[kani::proof]
